@@ -11,21 +11,70 @@ from fractions import Fraction
 import numpy as np
 import z3
 
-from symnp.array import NP_OVERRIDES, HANDLERS, ModProxy, SymArray, has_sym, lifted, sarr, _map, _sym_sqrt
-from symnp.core import _CTX, ONE, ZERO, And, Or, Poly, Sym, SymBool, SymError, cur, lift
-from symnp.harness import Obligation, eq, implies
-from props.common import dagger, kron_all, prod
+from symnp.array import NP_OVERRIDES, HANDLERS, ModProxy, SymArray, has_sym, sarr, _map, _sym_sqrt
+from symnp.core import _CTX, ONE, And, Poly, Sym, SymBool, cur, lift
+from symnp.harness import Obligation, eq
+from props.common import kron_all
+
+_ST = ["basis", "bb84", "bell", "brauer", "breuer", "chessboard", "dicke", "domino", "gen_bell", "ghz", "gisin", "horodecki", "isotropic",
+       "max_entangled", "max_mixed", "mutually_unbiased_basis", "pusey_barrett_rudolph", "singlet", "tile", "trine", "w_state", "werner"]
+_MX = ["cnot", "cyclic_permutation_matrix", "fourier", "gell_mann", "gen_gell_mann", "gen_pauli", "gen_pauli_x", "gen_pauli_z", "hadamard",
+       "pauli", "standard_basis"]
 
 META = {
     "id": "C17",
     "level": "other",
-    "files": [],
-    "functions": [],
-    "explanation": "",
-    "bounds": {},
-    "trusted_base": [],
-    "outside_claim": [],
-    "assumptions": [],
+    "files": [f"toqito/states/{n}.py" for n in _ST] + [f"toqito/matrices/{n}.py" for n in _MX] +
+             ["toqito/channels/partial_trace.py", "toqito/channels/partial_transpose.py", "toqito/perms/swap_operator.py", "toqito/perms/swap.py",
+              "toqito/perms/permutation_operator.py", "toqito/perms/permute_systems.py", "toqito/perms/symmetric_projection.py",
+              "toqito/perms/perfect_matchings.py", "toqito/matrix_ops/tensor.py", "toqito/matrix_ops/vec.py"],
+    "functions": [f"toqito.states.{n}" for n in _ST] + [f"toqito.matrices.{n}" for n in _MX],
+    "explanation": "Every constructor exported by toqito.states and toqito.matrices is executed (the real code) and its output is compared "
+                   "with the documented closed form and with the defining identities, for every index / index pair of the bound. "
+                   "(A) Constructors with real parameters (werner, isotropic, horodecki, gisin, pusey_barrett_rudolph, breuer, chessboard, "
+                   "ghz / w_state with coefficient vectors) get symbolic parameters: z3 decides entry-wise equality with the closed form "
+                   "written with explicit loops for ALL parameter values, unit trace / unit norm (nonlinear arithmetic where a norm is "
+                   "divided out), the documented rejections outside [0,1] on every path, and the PPT thresholds by certificate: the "
+                   "partial transpose computed by the real partial_transpose equals sum_k lambda_k(alpha) P_k with concrete orthogonal "
+                   "projectors, and all lambda_k >= 0 iff alpha <= 1/d (Werner) resp. alpha <= 1/(d+1) (isotropic); Horodecki: "
+                   "y*PT(rho_a) = t*(y*a*sum v v^T + u u^T) with y, t > 0, a >= 0 on [0,1] (Gram certificate of positive "
+                   "semidefiniteness, sqrt(1-a^2) a symbol with s*s rewritten). sin/cos of the parameter angle are symbols on the unit "
+                   "circle (s*s rewritten to 1-c*c, double angle expanded). (B) Parameter-free constructors: inside toqito modules "
+                   "np.sqrt(q) of a plain non-square rational, np.linalg.norm of a plain rational vector and exp(2*pi*i*k/12) return "
+                   "exact algebraic numbers (polynomials over sqrt(prime) symbols with s*s rewritten to the prime, reciprocals "
+                   "rationalised), so the real code computes bell(0), fourier(3), gell_mann(8), dicke(4,2)... over Q(i, sqrt primes) "
+                   "and orthonormality, maximally mixed marginals (real partial_trace), trace-orthogonality, the Weyl relation "
+                   "Z X = w X Z, F X F^dagger = Z and unitarity are exact identities decided on the normal form / by z3. Where the code "
+                   "path cannot be made exact (python float powers in hadamard, rounding in w_state, LAPACK eig in "
+                   "mutually_unbiased_basis, fifth roots of unity, double factors such as 1/3) the cfg says 'float-lifted' or "
+                   "'algebraic entries with double factors' and the obligation is |residual| <= 1e-9 in exact rational arithmetic over "
+                   "the exact binary values of the returned doubles (with 1e-14 enclosures of the sqrt symbols).",
+    "bounds": {
+        "quick": "d in 2..4 (basis / max_mixed / singlet also 5), qubit counts 1..4, MUB d in {2,3,5}, hadamard n in 0..4, cyclic shift n in "
+                 "1..5 with all powers 0..n+1, Pauli strings on 1..2 qubits, brauer (d,p) in {(2,1),(2,2),(3,1),(3,2),(2,3)}, Horodecki 3x3 "
+                 "and 2x4, breuer d in {2,4}, PBR n in 1..3, ghz/w coefficient vectors of length 2..4; all index pairs; every real "
+                 "parameter value (symbolic)",
+        "thorough": "d in 2..6 (d = 5 float-lifted: fifth roots of unity are not in Q(i, sqrt3)), qubit counts 1..5, MUB d = 7, hadamard n = 5, "
+                    "Pauli strings on 3 qubits, brauer (4,2),(5,1), breuer d = 6, PBR n = 4",
+    },
+    "trusted_base": ["numpy object-array semantics = numeric semantics (translator validation per obligation: the symbolic run evaluated "
+                     "numerically equals the plain numpy run)",
+                     "np.sqrt(q) / np.linalg.norm / exp(2 pi i k/12) on plain doubles denote the exact algebraic number (the double is its "
+                     "rounding): overrides registered by props/c17.py through symnp NP_OVERRIDES and a patch of cmath.exp in gen_pauli_z",
+                     "trigonometric contract: sin^2 + cos^2 = 1 and the double-angle formulas",
+                     "isinstance(alpha, float) is true for a real symbolic scalar (patched name in toqito.states.werner)",
+                     "z3 nonlinear real arithmetic for the obligations in mode nra (Werner threshold, Horodecki certificate, unit norm of "
+                     "coefficient forms)", "z3 5.1.0"],
+    "outside_claim": ["invariance of Werner states under ALL U(x)U and of isotropic states under ALL U(x)conj(U): a consequence of the closed "
+                      "forms (I, swap resp. I, |psi+><psi+|) by representation theory, not of toqito's glue code",
+                      "fifth (and seventh) roots of unity as exact algebraic numbers: d = 5 is checked float-lifted",
+                      "unextendibility of the tile basis (an existence statement); orthonormality and product form are checked",
+                      "eigenvectors returned by LAPACK in mutually_unbiased_basis: checked on the returned doubles only",
+                      "rounding: np.around is the identity on symbolic values (the symbolic w_state obligations speak about unrounded "
+                      "entries; the float-lifted ones about the returned doubles)",
+                      "dimensions / qubit counts above the bound"],
+    "assumptions": ["floats modelled as reals in the symbolic obligations", "chessboard parameters real (documented type list[float])",
+                    "Werner alpha in [-1,1], isotropic alpha in [-1/(d^2-1),1] for the threshold statements (the admissible ranges)"],
 }
 
 TOL = Fraction(1, 10 ** 9)
@@ -121,6 +170,9 @@ def alg_sqrt(fr):
     r = lift(Fraction(m, fr.denominator))
     for p in _prime_factors(k):
         r = r * _sqrt_prime(p)
+    if k > 1:
+        cur().stubs.add("sqrt(q) of a rational constant: exact algebraic number over sqrt(prime) symbols (s*s rewritten to the "
+                        "prime, 1/s rationalised, 1e-14 interval known to the solver)")
     for mono in r.re.t:
         _bound_mono(mono)
     return AlgSym(r.re, r.im)
@@ -260,7 +312,7 @@ def c17_sqrt(x, *a, **k):
 # twelfth roots of unity: exp(i*pi*k/6) = cos + i sin with values in {0, +-1/2, +-sqrt3/2, +-1}
 def _w12(k):
     k %= 12
-    half, one = Fraction(1, 2), Fraction(1)
+    half = Fraction(1, 2)
     s3 = None
 
     def val(code):
@@ -302,6 +354,10 @@ def c17_exp(z, *a, **k):
 def c17_norm(x, ord=None, axis=None, keepdims=False):
     """np.linalg.norm of a plain float vector whose squared length is a small rational: exact algebraic number"""
     if has_sym(x):
+        flat = list(np.asarray(x, dtype=object).flat)
+        if _active() and ord is None and axis is None and np.ndim(x) == 1 and all(lift(v).is_const() and not lift(v).im.t for v in flat):
+            tot = sum((lift(v).re.cval() ** 2 for v in flat), Fraction(0))
+            return alg_sqrt(tot)
         return HANDLERS[np.linalg.norm](x, ord=ord, axis=axis, keepdims=keepdims)
     if _active() and ord is None and axis is None and not keepdims:
         v = np.asarray(x)
@@ -489,11 +545,19 @@ def dag(A):
     return out
 
 
+def ex(x):
+    """doubles / ints as exact rationals (under a solver context) so that products with Fractions stay exact"""
+    if _CTX and isinstance(x, (int, float, np.integer, np.floating)) and not isinstance(x, (bool, np.bool_)):
+        return Fraction(x)
+    return x
+
+
 def scale(c, A):
     A = np.asarray(A, dtype=object)
     out = np.empty(A.shape, dtype=object)
+    c = ex(c)
     for idx in np.ndindex(A.shape):
-        out[idx] = 0 if iszero(A[idx]) else c * A[idx]
+        out[idx] = 0 if iszero(A[idx]) else c * ex(A[idx])
     return out
 
 
@@ -502,7 +566,7 @@ def sub(A, B):
     assert A.shape == B.shape
     out = np.empty(A.shape, dtype=object)
     for idx in np.ndindex(A.shape):
-        out[idx] = A[idx] - B[idx]
+        out[idx] = ex(A[idx]) - ex(B[idx])
     return out
 
 
@@ -1118,14 +1182,25 @@ def ob_pauli_strings(n):
     def call():
         idxs = list(itertools.product(range(4), repeat=n))
         Ps = [np.asarray(pauli(list(ix))) for ix in idxs]
-        own = [kron_all([np.array(PAULI_CLOSED[k]) for k in ix]) for ix in idxs]
-        return [hs_gram(Ps), np.stack(Ps), np.asarray(dense(pauli([1, 3][:n] + [2] * (n - 2), True)))]
+        return [hs_gram(Ps), np.stack(Ps)]
 
     def expect():
         idxs = list(itertools.product(range(4), repeat=n))
         own = [kron_all([np.array(PAULI_CLOSED[k]) for k in ix]) for ix in idxs]
-        return [scale(2 ** n, ident(4 ** n)), np.stack(own), kron_all([np.array(PAULI_CLOSED[k]) for k in ([1, 3][:n] + [2] * (n - 2))])]
+        return [scale(2 ** n, ident(4 ** n)), np.stack(own)]
     return cob("pauli.n_qubit_strings_are_tensor_products_and_trace_orthogonal", {"qubits": n}, call, expect, weight=4 ** n)
+
+
+def ob_pauli_sparse_string(ix):
+    """is_sparse=True with a list of indices: the same operator as the dense form"""
+    from toqito.matrices import pauli
+
+    def call():
+        return [np.asarray(dense(pauli(list(ix), True)))]
+
+    def expect():
+        return [kron_all([np.array(PAULI_CLOSED[k]) for k in ix])]
+    return cob("pauli.sparse_string_equals_dense_string", {"indices": list(ix)}, call, expect)
 
 
 def ob_weyl(d, how):
@@ -1300,3 +1375,693 @@ def ob_cyclic(n):
             out.append(M)
         return [np.stack(out), np.stack([ident(n)] * (n + 2)), out[1]]
     return cob("cyclic_permutation_matrix.is_kth_power_of_the_cyclic_shift", {"n": n}, call, expect)
+
+
+# ================================================================================================
+# (A) constructors with real parameters: symbolic parameters
+# ================================================================================================
+def _sym_isinstance(obj, cls):
+    if cls is float and isinstance(obj, Sym) and not obj.im.t:
+        cur().stubs.add("isinstance(alpha, float): a real symbolic scalar counts as a float")
+        return True
+    return builtins.isinstance(obj, cls)
+
+
+WERNER_PATCH = {"toqito.states.werner": {"isinstance": _sym_isinstance}}
+
+
+def sq(x):
+    return x.sqrt() if isinstance(x, Sym) else math.sqrt(x)
+
+
+def werner_closed(d, alpha):
+    W = swap_mat(d)
+    den = d * (d - alpha)
+    out = np.empty((d * d, d * d), dtype=object)
+    for i in range(d * d):
+        for j in range(d * d):
+            out[i, j] = ((1 if i == j else 0) - alpha * W[i, j]) / den
+    return out
+
+
+def ob_werner_closed(d):
+    from toqito.states import werner
+
+    def build(b):
+        return {"alpha": b.real("alpha")}
+
+    def call(i):
+        r = werner(d, i["alpha"])
+        return [np.asarray(r), cell(tr(r))]
+
+    def oracle(i):
+        return [werner_closed(d, i["alpha"]), cell(1)]
+    return pob("werner.scalar_form_is_identity_minus_alpha_swap_normalised", {"d": d}, build, call, oracle, extra=WERNER_PATCH)
+
+
+def ob_werner_list1(d):
+    from toqito.states import werner
+
+    def build(b):
+        return {"alpha": b.real("alpha")}
+
+    def call(i):
+        return np.asarray(werner(d, [i["alpha"]]))
+
+    def oracle(i):
+        return np.asarray(werner(d, i["alpha"]))
+    return pob("werner.one_parameter_list_form_equals_scalar_form", {"d": d}, build, call, oracle, extra=WERNER_PATCH,
+               flags=("objident",))
+
+
+def ob_werner_multi(d):
+    """documented: normalisation of I - alpha(1)P(2) - ... - alpha(p!-1)P(p!), permutations in lexicographic order (p = 3)"""
+    from toqito.states import werner
+    from toqito.perms import permutation_operator
+
+    def build(b):
+        return {"alpha": [b.real(f"alpha{k}") for k in range(5)]}
+
+    def call(i):
+        return np.asarray(werner(d, list(i["alpha"])))
+
+    def documented(i, inverse):
+        perms = list(itertools.permutations(range(3)))
+        M = np.asarray(ident(d ** 3), dtype=object)
+        for j in range(1, 6):
+            P = np.asarray(permutation_operator(d, list(perms[j]), inverse))
+            M = M - scale(i["alpha"][j - 1], P)
+        t = tr(M)
+        out = np.empty(M.shape, dtype=object)
+        for idx in np.ndindex(M.shape):
+            out[idx] = M[idx] / t
+        return out
+
+    def oracle(i):
+        return [documented(i, False), documented(i, True)]
+
+    def post(res, exp, i):
+        a, b = eq(res, exp[0]), eq(res, exp[1])   # either reading of "permutes according to the i-th permutation"
+        if isinstance(a, bool) and isinstance(b, bool):
+            return a or b
+        return SymBool(a) | SymBool(b)
+
+    def neg(exp):
+        return [np.roll(np.asarray(e, dtype=object).ravel(), 1).reshape(np.shape(e)) for e in exp]
+    return pob("werner.multipartite_list_form_matches_documented_formula", {"d": d, "parties": 3}, build, call, oracle,
+               extra=WERNER_PATCH, flags=("objident",), post=post, neg=neg)
+
+
+def ob_werner_ppt(d):
+    """PT(rho_alpha) = l1(alpha) P + l2(alpha) (I - P), P = |psi+><psi+| ; l1, l2 >= 0  <=>  alpha <= 1/d"""
+    from toqito.states import werner
+    from toqito.channels import partial_transpose
+
+    def build(b):
+        return {"alpha": b.real("alpha")}
+
+    def call(i):
+        return np.asarray(partial_transpose(werner(d, i["alpha"]), [1], [d, d]))
+
+    def eigs(i):
+        a = i["alpha"]
+        t = 1 / (d * (d - a))
+        return (1 - d * a) * t, t
+
+    def oracle(i):
+        l1, l2 = eigs(i)
+        P = maxent_proj(d)
+        Q = sub(ident(d * d), P)
+        return np.asarray(scale(l1, P), dtype=object) + np.asarray(scale(l2, Q), dtype=object)
+
+    def post(res, exp, i):
+        P = maxent_proj(d)
+        cert = near(mm(P, P), P, "exact")            # P is a projector (constants)
+        cert = cert if isinstance(cert, bool) else cert.const
+        l1, l2 = eigs(i)
+        a = i["alpha"]
+        e = eq(res, exp)
+        if isinstance(a, Sym):
+            return SymBool(e) & SymBool(bool(cert)) & (((l1 >= 0) & (l2 >= 0)) == (a <= Fraction(1, d)))
+        return bool(e) and bool(cert) and ((l1 >= -1e-12 and l2 >= 0) == (a <= 1 / d + 1e-12) or abs(a - 1 / d) < 1e-9)
+
+    def assume(i):
+        return [i["alpha"] >= -1, i["alpha"] <= 1]
+
+    def valid(ni):
+        return -1 <= ni["alpha"] <= 1
+    return pob("werner.ppt_iff_alpha_at_most_one_over_d_by_eigen_certificate", {"d": d}, build, call, oracle,
+               extra=WERNER_PATCH, post=post, assume=assume, valid=valid, mode="nra")
+
+
+def iso_closed(d, alpha):
+    out = np.empty((d * d, d * d), dtype=object)
+    for i in range(d):
+        for j in range(d):
+            for k in range(d):
+                for l in range(d):
+                    v = 0
+                    if i == k and j == l:
+                        v = v + (1 - alpha) / (d * d)
+                    if i == j and k == l:
+                        v = v + alpha / d
+                    out[i * d + j, k * d + l] = v
+    return out
+
+
+def ob_iso_closed(d):
+    from toqito.states import isotropic
+
+    def build(b):
+        return {"alpha": b.real("alpha")}
+
+    def call(i):
+        r = isotropic(d, i["alpha"])
+        return [np.asarray(r), cell(tr(r))]
+
+    def oracle(i):
+        return [iso_closed(d, i["alpha"]), cell(1)]
+    return pob("isotropic.closed_form_and_unit_trace", {"d": d}, build, call, oracle)
+
+
+def ob_iso_ppt(d):
+    """PT(rho_alpha) = m+ P_sym + m- P_asym ; m+, m- >= 0  <=>  alpha <= 1/(d+1)   (admissible alpha in [-1/(d^2-1), 1])"""
+    from toqito.states import isotropic
+    from toqito.channels import partial_transpose
+
+    def build(b):
+        return {"alpha": b.real("alpha")}
+
+    def call(i):
+        return np.asarray(partial_transpose(isotropic(d, i["alpha"]), [1], [d, d]))
+
+    def eigs(i):
+        a = i["alpha"]
+        return (1 - a) / (d * d) + a / d, (1 - a) / (d * d) - a / d
+
+    def projs():
+        W = swap_mat(d)
+        h = fr(1, 2)
+        return scale(h, ident(d * d) + W), scale(h, ident(d * d) - W)
+
+    def oracle(i):
+        mp, mn = eigs(i)
+        Ps, Pa = projs()
+        return np.asarray(scale(mp, Ps), dtype=object) + np.asarray(scale(mn, Pa), dtype=object)
+
+    def post(res, exp, i):
+        Ps, Pa = projs()
+        cert = near([mm(Ps, Ps), mm(Pa, Pa), mm(Ps, Pa)], [Ps, Pa, np.zeros((d * d, d * d))], "exact")
+        cert = cert if isinstance(cert, bool) else cert.const
+        mp, mn = eigs(i)
+        a = i["alpha"]
+        e = eq(res, exp)
+        if isinstance(a, Sym):
+            return SymBool(e) & SymBool(bool(cert)) & (((mp >= 0) & (mn >= 0)) == (a <= Fraction(1, d + 1)))
+        return bool(e) and bool(cert) and ((mp >= 0 and mn >= -1e-12) == (a <= 1 / (d + 1) + 1e-12) or abs(a - 1 / (d + 1)) < 1e-9)
+
+    def assume(i):
+        return [i["alpha"] >= Fraction(-1, d * d - 1), i["alpha"] <= 1]
+
+    def valid(ni):
+        return -1 / (d * d - 1) <= ni["alpha"] <= 1
+    return pob("isotropic.ppt_iff_alpha_at_most_one_over_d_plus_one_by_eigen_certificate", {"d": d}, build, call, oracle,
+               post=post, assume=assume, valid=valid)
+
+
+def horodecki_closed(a, dims):
+    b = (1 + a) / 2
+    c = sq(1 - a * a) / 2
+    if dims == (3, 3):
+        n = 8 * a + 1
+        M = [[a, 0, 0, 0, a, 0, 0, 0, a], [0, a, 0, 0, 0, 0, 0, 0, 0], [0, 0, a, 0, 0, 0, 0, 0, 0], [0, 0, 0, a, 0, 0, 0, 0, 0],
+             [a, 0, 0, 0, a, 0, 0, 0, a], [0, 0, 0, 0, 0, a, 0, 0, 0], [0, 0, 0, 0, 0, 0, b, 0, c], [0, 0, 0, 0, 0, 0, 0, a, 0],
+             [a, 0, 0, 0, a, 0, c, 0, b]]
+    else:
+        n = 7 * a + 1
+        M = [[a, 0, 0, 0, 0, a, 0, 0], [0, a, 0, 0, 0, 0, a, 0], [0, 0, a, 0, 0, 0, 0, a], [0, 0, 0, a, 0, 0, 0, 0],
+             [0, 0, 0, 0, b, 0, 0, c], [a, 0, 0, 0, 0, a, 0, 0], [0, a, 0, 0, 0, 0, a, 0], [0, 0, a, 0, c, 0, 0, b]]
+    N = len(M)
+    out = np.empty((N, N), dtype=object)
+    for i in range(N):
+        for j in range(N):
+            out[i, j] = M[i][j] / n
+    return out
+
+
+def _unit_interval_exc(e, i, name="a"):
+    a = i[name]
+    return isinstance(e, ValueError) and ((a < 0) | (a > 1) if isinstance(a, Sym) else (a < 0 or a > 1))
+
+
+def ob_horodecki_closed(dims, default=False):
+    from toqito.states import horodecki
+
+    def build(b):
+        return {"a": b.real("a")}
+
+    def call(i):
+        r = horodecki(i["a"]) if default else horodecki(i["a"], list(dims))
+        return [np.asarray(r), cell(tr(r))]
+
+    def oracle(i):
+        return [horodecki_closed(i["a"], dims), cell(1)]
+    return pob("horodecki.documented_matrix_unit_trace_and_rejection_outside_unit_interval",
+               {"dims": list(dims), "dim_argument": "default" if default else "given"}, build, call, oracle,
+               exc_post=_unit_interval_exc)
+
+
+def ob_horodecki_ppt(dims):
+    """PSD certificate of the partial transpose on [0,1]:  y * PT(rho_a) = t * ( y*a*sum_k v_k v_k^T + u u^T ),
+    y = (1+a)/2 > 0, t = 1/(8a+1) resp. 1/(7a+1) > 0, a >= 0, u = c e_p + y e_q with c = sqrt(1-a^2)/2"""
+    from toqito.states import horodecki
+    from toqito.channels import partial_transpose
+    N = dims[0] * dims[1]
+    if dims == (3, 3):
+        sysarg, vs, (p, q), nn = [1], [(0,), (4,), (1, 3), (5, 7), (2, 6)], (6, 8), 8
+    else:
+        # transposing the first factor swaps the off-diagonal 4x4 blocks a*S, a*S^T (S = shift): PT = a [I;S][I;S]^T + 0 (+) R
+        sysarg, vs, (p, q), nn = [0], [(0,), (1, 4), (2, 5), (3, 6)], (4, 7), 7
+
+    def build(b):
+        return {"a": b.real("a")}
+
+    def call(i):
+        return np.asarray(partial_transpose(horodecki(i["a"], list(dims)), sysarg, list(dims)))
+
+    def parts(i):
+        a = i["a"]
+        y = (1 + a) / 2
+        c = sq(1 - a * a) / 2
+        t = 1 / (nn * a + 1)
+        return a, y, c, t
+
+    def oracle(i):
+        a, y, c, t = parts(i)
+        S = np.zeros((N, N), dtype=object)
+        for v in vs:
+            for r in v:
+                for s in v:
+                    S[r, s] = S[r, s] + y * a
+        u = {p: c, q: y}
+        for r in u:
+            for s in u:
+                S[r, s] = S[r, s] + u[r] * u[s]
+        return scale(t, S)
+
+    def post(res, exp, i):
+        a, y, c, t = parts(i)
+        e = eq(scale(y, res), exp)
+        if isinstance(a, Sym):
+            return SymBool(e) & (y > 0) & (t > 0)
+        return bool(e) and y > 0 and t > 0
+
+    def assume(i):
+        return [i["a"] >= 0, i["a"] <= 1]
+
+    def valid(ni):
+        return 0 <= ni["a"] <= 1
+
+    def neg(exp):
+        b = np.array(exp, dtype=object, copy=True)
+        b[0, 0] = b[0, 0] + 1
+        return b
+    return pob("horodecki.partial_transpose_is_psd_on_unit_interval_by_gram_certificate", {"dims": list(dims)}, build, call, oracle,
+               post=post, assume=assume, valid=valid, mode="nra", neg=neg)
+
+
+def ob_gisin():
+    from toqito.states import gisin
+
+    def build(b):
+        return {"lam": b.real("lambda"), "theta": b.real("theta")}
+
+    def call(i):
+        if isinstance(i["theta"], Sym):
+            trig_base(i["theta"])
+        r = gisin(i["lam"], i["theta"])
+        return [np.asarray(r), cell(tr(r))]
+
+    def oracle(i):
+        lam = i["lam"]
+        c, s = cs(i["theta"])
+        out = np.zeros((4, 4), dtype=object)
+        out[0, 0] = out[3, 3] = (1 - lam) / 2
+        out[1, 1] = lam * s * s
+        out[2, 2] = lam * c * c
+        out[1, 2] = out[2, 1] = -lam * s * c
+        return [out, cell(1)]
+
+    def exc_post(e, i):
+        return _unit_interval_exc(e, i, "lam")
+    return pob("gisin.documented_matrix_unit_trace_and_rejection_outside_unit_interval", {}, build, call, oracle, exc_post=exc_post)
+
+
+def ob_pbr(n):
+    from toqito.states import pusey_barrett_rudolph
+
+    def build(b):
+        return {"theta": b.real("theta")}
+
+    def half(i):
+        th = i["theta"]
+        return th / 2
+
+    def call(i):
+        if isinstance(i["theta"], Sym):
+            trig_base(half(i))
+        sts = pusey_barrett_rudolph(n, i["theta"])
+        return [np.hstack([np.asarray(s) for s in sts]), gram(sts)]
+
+    def oracle(i):
+        c, s = cs(half(i))
+        psi = [np.array([c, s], dtype=object), np.array([c, -s], dtype=object)]
+        cols, strs = [], list(itertools.product([0, 1], repeat=n))
+        for bs in strs:
+            v = np.array([1], dtype=object)
+            for bit in bs:
+                v = np.array([x * y for x in v for y in psi[bit]], dtype=object)
+            cols.append(v.reshape(-1, 1))
+        ov = c * c - s * s                       # <psi_0|psi_1> = cos(theta)
+        G = np.empty((len(strs), len(strs)), dtype=object)
+        for a, x in enumerate(strs):
+            for bb, y in enumerate(strs):
+                g = 1
+                for p, q in zip(x, y):
+                    if p != q:
+                        g = g * ov
+                G[a, bb] = g
+        return [np.hstack(cols), G]
+    return pob("pusey_barrett_rudolph.product_states_unit_norm_and_overlaps", {"n": n}, build, call, oracle)
+
+
+def ob_breuer(d):
+    from toqito.states import breuer
+
+    def build(b):
+        return {"lam": b.real("lambda")}
+
+    def call(i):
+        r = breuer(d, i["lam"])
+        return [np.asarray(r), cell(tr(r))]
+
+    def oracle(i):
+        lam = i["lam"]
+        # psi = (1 (x) V)|Phi+>, V = antidiagonal with alternating signs: V|i> = s_{d-1-i}|d-1-i>, s_k = (-1)^{(k+1) mod 2}
+        psi = [0] * (d * d)
+        for k in range(d):
+            sgn = (-1) ** ((d - 1 - k + 1) % 2)
+            psi[k * d + (d - 1 - k)] = sgn
+        W = swap_mat(d)
+        out = np.empty((d * d, d * d), dtype=object)
+        for r in range(d * d):
+            for c in range(d * d):
+                pp = Fraction(psi[r] * psi[c], d) if _CTX else psi[r] * psi[c] / d
+                ps = ((1 if r == c else 0) + W[r, c]) / 2
+                ps = Fraction(int(2 * ps), 2) if _CTX else ps
+                out[r, c] = lam * pp + (1 - lam) * 2 * ps / (d * (d + 1))
+        return [out, cell(1)]
+    return pob("breuer.lambda_singlet_like_plus_normalised_symmetric_projector", {"d": d}, build, call, oracle)
+
+
+def ob_chessboard(defaults):
+    from toqito.states import chessboard
+
+    def build(b):
+        i = {"p": [b.real(n) for n in "abcdmn"]}
+        if not defaults:
+            i["s"], i["t"] = b.real("s"), b.real("t")
+        return i
+
+    def st(i):
+        a, bb, c, dd, m, n = i["p"]
+        if defaults:
+            return c / n, a * dd / m            # documented defaults (real parameters: conj is the identity)
+        return i["s"], i["t"]
+
+    def call(i):
+        r = chessboard(list(i["p"])) if defaults else chessboard(list(i["p"]), i["s"], i["t"])
+        return [np.asarray(r), cell(tr(r))]
+
+    def oracle(i):
+        a, bb, c, dd, m, n = i["p"]
+        s, t = st(i)
+        V = [[m, 0, s, 0, n, 0, 0, 0, 0], [0, a, 0, bb, 0, c, 0, 0, 0], [n, 0, 0, 0, -m, 0, t, 0, 0], [0, bb, 0, -a, 0, 0, 0, dd, 0]]
+        G = np.zeros((9, 9), dtype=object)
+        nrm = 0
+        for v in V:
+            for r in range(9):
+                if iszero(v[r]):
+                    continue
+                nrm = nrm + v[r] * v[r]
+                for cc in range(9):
+                    if not iszero(v[cc]):
+                        G[r, cc] = G[r, cc] + v[r] * v[cc]
+        out = np.empty((9, 9), dtype=object)
+        for idx in np.ndindex(9, 9):
+            out[idx] = G[idx] / nrm
+        return [out, cell(1)]
+
+    def valid(ni):
+        return abs(ni["p"][4]) > 1e-6 and abs(ni["p"][5]) > 1e-6
+    return pob("chessboard.normalised_sum_of_the_four_documented_projectors", {"s_t": "documented defaults" if defaults else "given"},
+               build, call, oracle, valid=valid)
+
+
+class _ObjCsr:
+    """csr_array(shape).toarray() as an object array (w_state allocates its vector that way and assigns coefficients)"""
+
+    def __init__(self, shape, *a, **k):
+        self.shape = shape
+
+    def toarray(self):
+        out = np.empty(self.shape, dtype=object)
+        for idx in np.ndindex(*self.shape):
+            out[idx] = lift(0)
+        cur().stubs.add("csr_array(shape).toarray(): zero object array")
+        return out.view(SymArray)
+
+
+def _coeff_post(norm_of):
+    def post(res, exp, i):
+        """entries c_j/||c||; inside numpy's isclose window around ||c|| = 1 the coefficients are used as given (documented)"""
+        e1 = eq(res, exp[0])
+        e2 = eq(res, exp[1])
+        nrm = norm_of(i)
+        if isinstance(nrm, Sym):
+            window = (nrm - 1 <= Fraction(2, 10 ** 5)) & (1 - nrm <= Fraction(2, 10 ** 5))
+            return SymBool(e1) | (SymBool(e2) & window)
+        return bool(e1) or (bool(e2) and abs(nrm - 1) <= 2e-5)
+    return post
+
+
+def _norm(c):
+    tot = 0
+    for x in c:
+        tot = tot + x * x
+    return sq(tot)
+
+
+def ob_ghz_coeff(d, n):
+    from toqito.states import ghz
+
+    def build(b):
+        return {"c": [b.real(f"c{k}") for k in range(d)]}
+
+    def call(i):
+        return np.asarray(ghz(d, n, list(i["c"])))
+
+    def oracle(i):
+        nrm = _norm(i["c"])
+        outs = []
+        for normalise in (True, False):
+            v = np.zeros((d ** n, 1), dtype=object)
+            for k in range(d):
+                idx = 0
+                for _ in range(n):
+                    idx = idx * d + k
+                v[idx, 0] = i["c"][k] / nrm if normalise else i["c"][k]
+            outs.append(v)
+        return outs
+
+    def valid(ni):
+        return sum(x * x for x in ni["c"]) > 1e-6
+
+    def neg(exp):
+        return [np.roll(np.asarray(e, dtype=object).ravel(), 1).reshape(np.shape(e)) for e in exp]
+    return pob("ghz.coefficient_vector_is_normalised_onto_the_diagonal_kets", {"d": d, "parties": n}, build, call, oracle,
+               post=_coeff_post(lambda i: _norm(i["c"])), valid=valid, neg=neg, objzeros=("toqito.states.ghz",))
+
+
+def ob_w_coeff(n):
+    from toqito.states import w_state
+
+    def build(b):
+        return {"c": [b.real(f"c{k}") for k in range(n)]}
+
+    def call(i):
+        return np.asarray(w_state(n, list(i["c"])))
+
+    def oracle(i):
+        nrm = _norm(i["c"])
+        outs = []
+        for normalise in (True, False):
+            v = np.zeros((2 ** n, 1), dtype=object)
+            for j in range(n):
+                v[2 ** (n - 1 - j), 0] = i["c"][j] / nrm if normalise else i["c"][j]   # c_j multiplies |0..1_j..0>
+            outs.append(v)
+        return outs
+
+    def post(res, exp, i):
+        if not isinstance(i["c"][0], Sym):
+            # plain numbers: the real function rounds to 4 decimals (documented by its examples)
+            nrm = _norm(i["c"])
+            ok1 = np.allclose(np.asarray(res, dtype=float), np.asarray(exp[0], dtype=float), rtol=0, atol=5.1e-5)
+            ok2 = np.allclose(np.asarray(res, dtype=float), np.asarray(exp[1], dtype=float), rtol=0, atol=5.1e-5) and abs(nrm - 1) <= 2e-5
+            return bool(ok1 or ok2)
+        return _coeff_post(lambda i: _norm(i["c"]))(res, exp, i)
+
+    def valid(ni):
+        return sum(x * x for x in ni["c"]) > 1e-6
+
+    def neg(exp):
+        return [np.roll(np.asarray(e, dtype=object).ravel(), 1).reshape(np.shape(e)) for e in exp]
+    return pob("w_state.coefficient_vector_is_normalised_onto_single_excitation_kets", {"qubits": n}, build, call, oracle,
+               post=post, valid=valid, neg=neg, extra={"toqito.states.w_state": {"csr_array": _ObjCsr}}, tv=False)
+
+
+def ob_coeff_unit_norm(kind, d, n):
+    """sum |entries|^2 = 1 for every coefficient vector (nonlinear: c_i/||c|| squared and summed), mode nra"""
+    from toqito.states import ghz, w_state
+
+    def build(b):
+        return {"c": [b.real(f"c{k}") for k in range(d)]}
+
+    def call(i):
+        v = ghz(d, n, list(i["c"])) if kind == "ghz" else w_state(n, list(i["c"]))
+        return cell(inner(v, v))
+
+    def normsq(i):
+        tot = 0
+        for x in i["c"]:
+            tot = tot + x * x
+        return tot
+
+    def oracle(i):
+        return [cell(1), cell(normsq(i))]
+
+    def post(res, exp, i):
+        nrm = _norm(i["c"])
+        e1, e2 = eq(res, exp[0]), eq(res, exp[1])
+        if isinstance(nrm, Sym):
+            return SymBool(e1) | (SymBool(e2) & (nrm - 1 <= Fraction(2, 10 ** 5)) & (1 - nrm <= Fraction(2, 10 ** 5)))
+        tol = 1e-9 if kind == "ghz" else 4e-4          # the real w_state rounds its entries to 4 decimals
+        return abs(res[0] - 1) <= tol or (abs(res[0] - exp[1][0]) <= tol and abs(nrm - 1) <= 2e-5)
+
+    def neg(exp):
+        return [cell(exp[0][0] + 1), cell(exp[1][0] + 1)]
+
+    def valid(ni):
+        return sum(x * x for x in ni["c"]) > 1e-6
+    extra = {"toqito.states.w_state": {"csr_array": _ObjCsr}} if kind == "w_state" else None
+    cfg = {"d": d, "parties": n} if kind == "ghz" else {"qubits": n}
+    return pob(f"{kind}.coefficient_form_has_unit_norm", cfg, build, call, oracle, post=post, neg=neg, valid=valid, mode="nra",
+               objzeros=("toqito.states.ghz",), extra=extra, tv=(kind == "ghz"), timeout_ms=30000)
+
+
+# ================================================================================================
+def obligations(tier):
+    import toqito.states as S
+    import toqito.matrices as Mx
+    T = tier == "thorough"
+    obs = []
+    dims = [2, 3, 4] + ([5, 6] if T else [])
+    field = {2: "exact", 3: "exact", 4: "exact", 5: "float", 6: "exact"}     # roots of unity exp(2 pi i/d) in Q(i, sqrt3)?
+    third = {2: "exact", 3: "mixed", 4: "exact", 5: "float", 6: "mixed"}     # ... and the double factor 1/d exact?
+
+    # ---- (A) symbolic parameters ----
+    for d in dims[:4]:
+        obs.append(ob_werner_closed(d))
+        obs.append(ob_werner_list1(d))
+        obs.append(ob_werner_ppt(d))
+        obs.append(ob_iso_closed(d))
+        obs.append(ob_iso_ppt(d))
+    obs.append(ob_werner_multi(2))
+    for dm in [(3, 3), (2, 4)]:
+        obs.append(ob_horodecki_closed(dm))
+        obs.append(ob_horodecki_ppt(dm))
+    obs.append(ob_horodecki_closed((3, 3), default=True))
+    obs.append(ob_gisin())
+    for n in [1, 2, 3] + ([4] if T else []):
+        obs.append(ob_pbr(n))
+    for d in [2, 4] + ([6] if T else []):
+        obs.append(ob_breuer(d))
+    obs.append(ob_chessboard(False))
+    obs.append(ob_chessboard(True))
+    for d, n in [(2, 2), (2, 3), (3, 2), (2, 4)] + ([(3, 3), (4, 2), (2, 5)] if T else []):
+        obs.append(ob_ghz_coeff(d, n))
+        obs.append(ob_coeff_unit_norm("ghz", d, n))
+    for n in [2, 3, 4] + ([5] if T else []):
+        obs.append(ob_w_coeff(n))
+        obs.append(ob_coeff_unit_norm("w_state", n, n))
+
+    # ---- (B) states ----
+    for d in [2, 3, 4, 5] + ([6] if T else []):
+        obs.append(ob_basis(d))
+        obs.append(ob_max_mixed(d))
+        obs.append(ob_singlet(d))
+    obs.append(ob_bb84())
+    obs.append(ob_bell())
+    obs.append(ob_gen_bell_is_bell())
+    obs.append(ob_trine())
+    obs.append(ob_product_basis("domino"))
+    obs.append(ob_product_basis("tile"))
+    for d in dims:
+        obs.append(ob_gen_bell(d, third[d]))
+        obs.append(ob_max_entangled(d))
+        obs.append(ob_max_entangled_sparse(d))
+    qubits = [1, 2, 3, 4] + ([5] if T else [])
+    for d in dims[:4] if not T else [2, 3, 4, 5]:
+        for n in qubits:
+            if d ** n <= (256 if not T else 1024):
+                obs.append(ob_ghz(d, n))
+    for n in qubits:
+        for k in range(n + 1):
+            obs.append(ob_dicke(n, k))
+    for n in [2, 3, 4] + ([5] if T else []):
+        obs.append(ob_w_state(n))
+        obs.append(ob_w_state_norm(n))
+    for d, p in [(2, 1), (2, 2), (3, 1), (3, 2), (2, 3)] + ([(4, 2), (5, 1)] if T else []):
+        obs.append(ob_brauer(d, p))
+    for d in [2, 3, 5] + ([7] if T else []):
+        obs.append(ob_mub(d))
+
+    # ---- (B) matrices ----
+    obs.append(ob_pauli_single())
+    for n in [1, 2] + ([3] if T else []):
+        obs.append(ob_pauli_strings(n))
+    for ix in [(1, 3), (2, 2), (0, 1)] + ([(1, 2, 3)] if T else []):
+        obs.append(ob_pauli_sparse_string(ix))
+    for d in dims:
+        obs.append(ob_weyl(d, field[d]))
+        obs.append(ob_gen_pauli(d, field[d]))
+        obs.append(ob_gen_gell_mann(d))
+    obs.append(ob_gell_mann())
+    for n in [0, 1, 2, 3, 4] + ([5] if T else []):
+        obs.append(ob_hadamard(n))
+    obs.append(ob_cnot())
+    for n in [1, 2, 3, 4, 5] + ([6] if T else []):
+        obs.append(ob_cyclic(n))
+
+    # ---- documented rejections ----
+    rej = [("bell(4)", lambda: S.bell(4)), ("domino(9)", lambda: S.domino(9)), ("tile(5)", lambda: S.tile(5)),
+           ("gell_mann(9)", lambda: Mx.gell_mann(9)), ("basis(2, 2)", lambda: S.basis(2, 2)), ("dicke(2, 3)", lambda: S.dicke(2, 3)),
+           ("ghz(0, 2)", lambda: S.ghz(0, 2)), ("ghz(2, 0)", lambda: S.ghz(2, 0)), ("ghz(2, 2, [1, 1, 1])", lambda: S.ghz(2, 2, [1, 1, 1])),
+           ("w_state(3, [1, 1])", lambda: S.w_state(3, [1, 1])),
+           ("breuer(3, 0.1)", lambda: S.breuer(3, 0.1)), ("horodecki(0.5, [2, 2])", lambda: S.horodecki(0.5, [2, 2])),
+           ("mutually_unbiased_basis(4)", lambda: S.mutually_unbiased_basis(4)),
+           ("mutually_unbiased_basis(6)", lambda: S.mutually_unbiased_basis(6)),
+           ("werner(2, [0.1, 0.2])", lambda: S.werner(2, [0.1, 0.2])), ("werner(2, [0.1]*4)", lambda: S.werner(2, [0.1] * 4))]
+    for nm, f in rej:
+        obs.append(rejects("constructor.rejects_documented_invalid_argument", {"call": nm}, f))
+    return obs
